@@ -62,9 +62,18 @@ Fixpoint mem (t : ty) (x : val) {struct t} : option img :=
          | _ :: rv, _ :: ro, S j => pick rv ro j
          | _, _, _ => None
          end) vs voffs (N.to_nat idx)
+  (* an enum without explicit repr: where the compiler keeps the tag is unknown (indeterminate bytes),
+     but the fields of the live variant sit at their probed offsets *)
+  | TEnum None l voffs vs, VVar idx xs =>
+      (fix pick (vs0 : list vdef) (vo : list (list N)) (i : nat) {struct vs0} : option img :=
+         match vs0, vo, i with
+         | vd :: _, offs :: _, O => mem_fields (vd_fields vd) offs xs (repeat None (N.to_nat (l_size l)))
+         | _ :: rv, _ :: ro, S j => pick rv ro j
+         | _, _, _ => None
+         end) vs voffs (N.to_nat idx)
   (* heap-backed / niche-optimised types (String, Vec, Option, Box, ...): opaque, not modelled;
      inside an aggregate their bytes stay indeterminate *)
-  | TString, _ | TVec _, _ | TSeq _, _ | TOption _, _ | TResult _ _, _ | TBox _, _ | TEnum None _ _ _, _ => Some []
+  | TString, _ | TVec _, _ | TSeq _, _ | TOption _, _ | TResult _ _, _ | TBox _, _ => Some []
   | _, _ => None
   end.
 
@@ -319,7 +328,11 @@ Fixpoint wf_layout (t : ty) : bool :=
                            Nat.eqb (length (fst p)) (length (vd_fields (snd p)))
                            && ranges_ok (l_size l) w (zip_ranges (fst p) (vd_fields (snd p))))
                         (combine voffs vs)
-         | None => true
+         | None =>
+             forallb (fun p : list N * vdef =>
+                           Nat.eqb (length (fst p)) (length (vd_fields (snd p)))
+                           && ranges_ok (l_size l) 0 (zip_ranges (fst p) (vd_fields (snd p))))
+                        (combine voffs vs)
          end
   | _ => true
   end.
